@@ -243,7 +243,7 @@ def c06(tier):
     base = dict(prune="OnlyPrune", invariants=inv, properties=["AbortRestores"])
     one = dict(base, keys="KOne", look="LOne", vals="VShare", maxlive=1, maxbatch=2, features="FBatch",
                view="ViewHist")
-    return generic("C06", tier,
+    rep = generic("C06", tier,
                    [dict(one, level=9), dict(base, level=5, features="FBatchNoop"),
                     dict(base, level=5, keys="KShare", look="LShare", vals="VShare", features="FDirect")],
                    [dict(one, level=10), dict(base, level=6, features="FBatchNoop"),
@@ -254,7 +254,22 @@ def c06(tier):
                              vals="VFull"),
                         dict(base, features="FBatchNoop", keys="KShare", look="LShare", vals="VShare",
                              maxbatch=4, maxlive=4)],
-                   need_tags=("ref-count>=2", "hashed-child", "embedded-child"))
+                   need_tags=("ref-count>=2", "hashed-child", "embedded-child"), finish=False)
+    # Beyond the listed properties: a database write that raises during a direct call on a PRUNING
+    # trie.  No property quantifies over it (C04 / C05 speak about non-pruning tries there), the
+    # specification records what the code does as a named deviation (the writes made before the
+    # failure stay, with their counts raised) and TLC checks what is left of C06 (Readable,
+    # RcNeverLow, LeftoversCounted).  The behaviours are replayed like all others, but whatever
+    # the replay finds is reported as a NOTE, never as a violation.
+    before = sum(rep.notes.values())
+    run_spec_to_code(rep, cfg(prune="OnlyPrune", features="FFailPrune", level=4 if tier == "quick" else 5,
+                              invariants=["Readable", "RcNeverLow", "LeftoversCounted", "MapRefinement", "Canonical"],
+                              properties=["FailedWriteKeepsRoot"], view="ViewFaults"),
+                     (), owners={"beyond-the-listed-properties"})
+    if sum(rep.notes.values()) != before:
+        rep.note("BEYOND THE PROPERTIES: after a failed database write on a pruning trie the code does not follow the "
+                 "specification's FailWrite action (see the notes above; DESIGN.md section 8)")
+    return rep.finish()
 
 
 def c07(tier):
